@@ -87,20 +87,23 @@ func propFlags(t *rapid.T) {
 		}
 		return n
 	}
-	kit.WaitUntil(3*time.Second, func() bool {
-		mu.Lock()
-		sd, ad := spawnDone, appDone
-		mu.Unlock()
-		return (sd || count("spawn") > 0) && (ad || count("app-start") > 0)
+	// what B allows must show up at its core (awaited); what it forbids is dropped without an answer,
+	// so for that there is only "not seen": a plain message sent after the requests is the witness
+	// that B has been handling what A sent, then a short grace period
+	kit.WaitUntil(5*time.Second, func() bool {
+		return (!bFlags.EnableRemoteSpawn || count("spawn") > 0) && (!bFlags.EnableRemoteApplicationStart || count("app-start") > 0)
 	})
-	time.Sleep(30 * time.Millisecond)
+	p.ConnA.SendPID(gen.PID{Node: "a@localhost", ID: 1010, Creation: 1001}, gen.PID{Node: "b@localhost", ID: 2020, Creation: 2002}, gen.MessageOptions{}, "marker")
+	kit.WaitUntil(5*time.Second, func() bool { return count("send-pid") > 0 })
+	time.Sleep(40 * time.Millisecond)
 	spawns, starts := count("spawn"), count("app-start")
 	mu.Lock()
 	se, sd, ae, ad := spawnErr, spawnDone, appErr, appDone
 	mu.Unlock()
 	p.Close()
 	closed = true
-	wg.Wait()
+	// (a requester whose request was dropped keeps waiting for its own time-out; nobody waits for it)
+	_ = &wg
 	cfg := fmt.Sprintf("B announces spawn=%v appstart=%v; A believes %d, announces %d", bFlags.EnableRemoteSpawn, bFlags.EnableRemoteApplicationStart, belief, about)
 	if !bFlags.EnableRemoteSpawn && spawns > 0 {
 		t.Fatalf("B forbids remote spawn and its core was asked to spawn %d time(s) (%s)", spawns, cfg)
